@@ -582,6 +582,17 @@ class XPathToken(Token[ta.XPathTokenType]):
             right_values = self._items[1].atomization(context)
 
         for op1, op2 in product(left_values, right_values):
+            # An untyped value compared with a decimal or an integer is cast to xs:double,
+            # then the other operand is promoted to xs:double too.
+            if isinstance(op1, UntypedAtomic):
+                if isinstance(op2, (int, decimal.Decimal)) and not isinstance(op2, bool):
+                    yield get_double(op1.value, self.parser.xsd_version), float(op2)
+                    continue
+            elif isinstance(op2, UntypedAtomic):
+                if isinstance(op1, (int, decimal.Decimal)) and not isinstance(op1, bool):
+                    yield float(op1), get_double(op2.value, self.parser.xsd_version)
+                    continue
+
             match op1:
                 case str() | AnyURI():
                     if not isinstance(op2, (str, UntypedAtomic, AnyURI)):
